@@ -1440,6 +1440,18 @@ def R3(ctx, rule="R3", parts=("structures", "counts", "graph-field")):
     # the augmented graph is the one stored in FnGraph.graph
     roles = structure_roles(ctx)
     cb_ = roles.get("ctor") or b         # the body holding the `FnGraph { .. }` literal: build() or a private constructor it calls
+    if "counts" in parts and roles.get("counts") is not None:
+        # ... and FnGraph.edge_counts is what the count calculation returned, whatever the graph looks like: no fast path stores
+        # `EdgeCounts::default()` (empty vectors) for "trivial" graphs
+        for bb, si, s in cb_.stmts():
+            if s["k"] == "assign" and s["rv"]["k"] == "agg" and s["rv"].get("def") == "fn_graph::FnGraph" and roles["counts"] < len(s["rv"]["ops"]):
+                cs_ = fl.sources_operand(cb_, s["rv"]["ops"][roles["counts"]])
+                alien = [x for x in cs_ if (x.kind == "alloc" and "Default::default" in x[4]) or
+                         (x.kind in ("agg", "alloc") and ("default::Default" in str(x[1]) or str(x[1]).endswith("::default")))]
+                ctx.check(not alien, rule, "counts-field", m.where(cb_, bb, si),
+                          "FnGraph.edge_counts is the result of the count calculation on every path",
+                          "FnGraph.edge_counts can also be %s: for those graphs the scheduler indexes counts that were never computed" % (
+                              [fmt_src(x) for x in alien][:2]))
     for bb, si, s in (cb_.stmts() if "graph-field" in parts else []):
         if s["k"] == "assign" and s["rv"]["k"] == "agg" and s["rv"].get("def") == "fn_graph::FnGraph":
             op = s["rv"]["ops"][roles["graph"]]
@@ -3253,7 +3265,13 @@ def progress_guard(ctx, body, bb, t):
                 for st in stores:
                     if body.dominates(sb, st["bb"]) and st["value"].kind == "const" and \
                             fl.sources_operand(body, st["container"]) == sources_of_expr(ctx, body, er[0]):
-                        return True, "test-and-set visited flag"
+                        # the flag that is tested and set is the flag OF THE NODE BEING QUEUED (a flag of some other node, e.g. the
+                        # pair scan's seen flag around a whole inner search, bounds nothing)
+                        fi = node_index_arg(er[1])
+                        bulk = (callee_path(t) or "").split("::")[-1] in ("extend", "append", "extend_from_slice") if isinstance(t, dict) and t.get("callee") else False
+                        if pushed is not None and fi is not None and (same_value_expr(ctx, body, pushed, fi) or
+                                                                      (not bulk and any(strip_refs(x_) == strip_refs(fi) for x_ in walk_expr(pushed)))):
+                            return True, "test-and-set visited flag"
         # counter reaching zero after decrement
         if e.kind == "binop" and e[1] == "Eq" and (is_const(e[3], 0) or is_const(e[2], 0)):
             x = e[2] if is_const(e[3], 0) else e[3]
